@@ -243,7 +243,7 @@ def run(run: Run) -> int:
     tl = nc.table_lines(pt.elements, base.me_exact())
     pools = nc.Pools(pt.elements)
     run_cases(run, pt, tl, FIXED)
-    n = 2000 if quick else 50000
+    n = 2000 if quick else 150000
     cases = [gen_case(run.rng, pools) for _ in range(n)]
     for i in range(0, n, 2500):
         run_cases(run, pt, tl, cases[i:i + 2500])
